@@ -133,6 +133,16 @@ class ConstFold(ast.NodeTransformer):
     def visit_Call(self, node):
         self.generic_visit(node)
         f = node.func
+        # f(*(a, b, c)) -> f(a, b, c)
+        if any(isinstance(a, ast.Starred) and isinstance(a.value, (ast.Tuple, ast.List)) and
+               not any(isinstance(e, ast.Starred) for e in a.value.elts) for a in node.args):
+            args = []
+            for a in node.args:
+                if isinstance(a, ast.Starred) and isinstance(a.value, (ast.Tuple, ast.List)) and not any(isinstance(e, ast.Starred) for e in a.value.elts):
+                    args.extend(a.value.elts)
+                else:
+                    args.append(a)
+            node.args = args
         if isinstance(f, ast.Attribute) and isinstance(f.value, ast.Name) and f.value.id == 'operator' and len(node.args) == 2 and not node.keywords:
             if f.attr in _OPERATOR_FUNCS and _OPERATOR_FUNCS[f.attr] is not None:
                 return ast.copy_location(ast.Compare(left=node.args[0], ops=[_OPERATOR_FUNCS[f.attr]()], comparators=[node.args[1]]), node)
@@ -169,6 +179,11 @@ class ConstFold(ast.NodeTransformer):
 
     def visit_Compare(self, node):
         self.generic_visit(node)
+        # `X is X` / `X is not X` for one plain name (what is left of a sentinel default once the helper was written out at a call
+        # that does not pass the argument)
+        if len(node.ops) == 1 and isinstance(node.ops[0], (ast.Is, ast.IsNot)) and isinstance(node.left, ast.Name) and \
+                isinstance(node.comparators[0], ast.Name) and node.left.id == node.comparators[0].id:
+            return ast.copy_location(ast.Constant(value=isinstance(node.ops[0], ast.Is)), node)
         if len(node.ops) == 1 and isinstance(node.left, ast.Constant) and isinstance(node.comparators[0], ast.Constant):
             a, b = node.left.value, node.comparators[0].value
             try:
@@ -1472,6 +1487,132 @@ class _ArithFold(ast.NodeTransformer):
         return node
 
 
+def _namedtuples(tree):
+    """module level `N = namedtuple('..', 'a b' | ['a', 'b'])` assigned once -> {N: [fields]}"""
+    out, count = {}, {}
+    for st in tree.body:
+        if isinstance(st, ast.Assign):
+            for t in st.targets:
+                if isinstance(t, ast.Name):
+                    count[t.id] = count.get(t.id, 0) + 1
+    for st in tree.body:
+        if isinstance(st, ast.Assign) and len(st.targets) == 1 and isinstance(st.targets[0], ast.Name) and isinstance(st.value, ast.Call) and \
+                (getattr(st.value.func, 'id', None) == 'namedtuple' or getattr(st.value.func, 'attr', None) == 'namedtuple') and \
+                len(st.value.args) == 2 and not st.value.keywords and count.get(st.targets[0].id) == 1:
+            f = st.value.args[1]
+            fields = None
+            if isinstance(f, ast.Constant) and isinstance(f.value, str):
+                fields = f.value.replace(',', ' ').split()
+            elif isinstance(f, (ast.List, ast.Tuple)) and all(isinstance(x, ast.Constant) and isinstance(x.value, str) for x in f.elts):
+                fields = [x.value for x in f.elts]
+            if fields and len(set(fields)) == len(fields) and all(x.isidentifier() for x in fields):
+                out[st.targets[0].id] = fields
+    return out
+
+
+class RecordSplit(ast.NodeTransformer):
+    """a local that only ever holds a freshly built record of one module level namedtuple and is only read field by field
+    (`r = N(a, flag=b)` ... `r.flag`) is the fields it holds: one local per field (`r__a, r__flag = a, b` ... `r__flag`).  The record
+    was a way to carry several results of a decision out of a helper; with the helper written out at its call the fields are the
+    flags and values the caller would have computed itself."""
+
+    def __init__(self, records):
+        self.records = records
+
+    def visit_FunctionDef(self, fn):
+        self.generic_visit(fn)
+        if not self.records:
+            return fn
+        params = {a.arg for a in ast.walk(fn.args) if isinstance(a, ast.arg)}
+        own = set()
+        stack = list(fn.body)
+        while stack:
+            n = stack.pop()
+            own.add(id(n))
+            if isinstance(n, (ast.FunctionDef, ast.AsyncFunctionDef, ast.ClassDef, ast.Lambda)):
+                continue
+            stack.extend(ast.iter_child_nodes(n))
+        parents = {}
+        for n in ast.walk(fn):
+            for ch in ast.iter_child_nodes(n):
+                parents[id(ch)] = n
+        names = {}
+        for n in ast.walk(fn):
+            if isinstance(n, ast.Name):
+                names.setdefault(n.id, []).append(n)
+            elif isinstance(n, (ast.Global, ast.Nonlocal)):
+                for nm in n.names:
+                    names.setdefault(nm, []).append(None)
+        allnames = set(names) | params
+        todo = {}
+        for v, occ in names.items():
+            if v in params or any(o is None or id(o) not in own for o in occ):
+                continue
+            rec, ok, assigns = None, True, []
+            for o in occ:
+                par = parents.get(id(o))
+                if isinstance(o.ctx, ast.Store):
+                    if not (isinstance(par, ast.Assign) and len(par.targets) == 1 and par.targets[0] is o and isinstance(par.value, ast.Call) and
+                            isinstance(par.value.func, ast.Name) and par.value.func.id in self.records):
+                        ok = False
+                        break
+                    c = par.value
+                    fields = self.records[c.func.id]
+                    if rec not in (None, c.func.id) or any(isinstance(a, ast.Starred) for a in c.args) or any(k.arg is None for k in c.keywords) or \
+                            len(c.args) + len(c.keywords) != len(fields) or [k.arg for k in c.keywords] != fields[len(c.args):]:
+                        ok = False      # (keywords in field order: the arguments are evaluated in the order of the fields)
+                        break
+                    rec = c.func.id
+                    assigns.append(par)
+                elif isinstance(o.ctx, ast.Load):
+                    if not (isinstance(par, ast.Attribute) and par.value is o and isinstance(par.ctx, ast.Load)):
+                        ok = False
+                        break
+                else:
+                    ok = False
+                    break
+            if not ok or rec is None or not assigns:
+                continue
+            fields = self.records[rec]
+            if any(isinstance(parents.get(id(o)), ast.Attribute) and parents[id(o)].attr not in fields for o in occ if isinstance(o.ctx, ast.Load)):
+                continue
+            if any('%s__%s' % (v, f) in allnames for f in fields):
+                continue
+            todo[v] = (fields, {id(a) for a in assigns})
+        if not todo:
+            return fn
+
+        class R(ast.NodeTransformer):
+            def visit_Attribute(self, node):
+                if isinstance(node.value, ast.Name) and node.value.id in todo and isinstance(node.ctx, ast.Load):
+                    return ast.copy_location(ast.Name(id='%s__%s' % (node.value.id, node.attr), ctx=ast.Load()), node)
+                self.generic_visit(node)
+                return node
+
+            def visit_Assign(self, node):
+                self.generic_visit(node)
+                t = node.targets[0]
+                if len(node.targets) == 1 and isinstance(t, ast.Name) and t.id in todo and id(node) in todo[t.id][1]:
+                    fields = todo[t.id][0]
+                    c = node.value
+                    vals = list(c.args) + [k.value for k in c.keywords]
+                    new = ast.Assign(targets=[ast.Tuple(elts=[ast.Name(id='%s__%s' % (t.id, f), ctx=ast.Store()) for f in fields], ctx=ast.Store())],
+                                     value=ast.Tuple(elts=vals, ctx=ast.Load()), type_comment=None)
+                    return ast.fix_missing_locations(ast.copy_location(new, node))
+                return node
+
+            def visit_FunctionDef(self, node):
+                return node
+
+            visit_AsyncFunctionDef = visit_FunctionDef
+            visit_Lambda = visit_FunctionDef
+        r = R()
+        fn.body = [ast.NodeTransformer.generic_visit(r, st) if False else r.visit(st) for st in fn.body]
+        return fn
+
+    visit_AsyncFunctionDef = visit_FunctionDef
+
+
 def simplify_tree(tree):
     """apply the normal forms to a module tree (in place) -> tree"""
     from .model import _InlineTemps
@@ -1496,6 +1637,7 @@ def simplify_tree(tree):
     tree = ToAug().visit(tree)
     tree = CounterInduction().visit(tree)
     tree = NextToLoop().visit(tree)
+    tree = RecordSplit(_namedtuples(tree)).visit(tree)
     tree = SplitTupleAssign().visit(tree)
     tree = RoundTripCopy().visit(tree)
     tree = CopyProp().visit(tree)
